@@ -170,7 +170,13 @@ func runTaint(c *Ctx) {
 		}
 		c.Check(pathOK, "source/validateManifest/item-path", vm.Pos(), "every iteration over m.Items ends with validateRelPath(item.RelPath) passed (files and directories)",
 			"validateManifest does not check every item's RelPath on every path through its loop: directory items are created with MkdirAll straight from the manifest")
-		c.Check(idOK, "source/validateManifest/item-id", vm.Pos(), "every iteration over m.Items ends with validateFilename(item.ID) passed, or the id empty",
+		// the id matters for this property only while it can become part of a path (until F35 it named the resume metadata file;
+		// since then sidecars are named by a hash of the relative path): asked of the code on every run
+		idSinks := itemIDPathSinks(p)
+		if len(idSinks) == 0 {
+			idOK = true
+		}
+		c.Check(idOK, "source/validateManifest/item-id", vm.Pos(), fmt.Sprintf("every iteration over m.Items ends with validateFilename(item.ID) passed, or the id empty - or no path is built from an item id (%d path-building calls take one)", len(idSinks)),
 			"validateManifest lets an item through its loop without validateFilename(item.ID) having passed (only an empty id is exempt - not directories, not empty files: a sidecar path is built and removed for every file item): the id names the resume metadata file (out/.thruflux_resumedata/<id>.sbxmap) and can carry path separators")
 		c.Stat("validateManifest_loop_exits", iters)
 	}
@@ -250,4 +256,68 @@ func runTaint(c *Ctx) {
 			})
 		}
 	}
+}
+
+// itemIDPathSinks lists the calls in internal/transfer and internal/app that build or use a file-system path from an item
+// identifier chosen by the peer (FileItem.ID, FileBegin/FileResumeInfo/ResumeRequest.FileID), directly or through a local.
+func itemIDPathSinks(p *Program) []string {
+	var out []string
+	idField := func(info *types.Info, e ast.Expr) bool {
+		hit := false
+		ast.Inspect(e, func(m ast.Node) bool {
+			sel, ok := m.(*ast.SelectorExpr)
+			if !ok || (sel.Sel.Name != "ID" && sel.Sel.Name != "FileID") {
+				return true
+			}
+			if fv, ok := info.Uses[sel.Sel].(*types.Var); ok && fv.IsField() {
+				if t := info.TypeOf(sel.X); t != nil {
+					ts := t.String()
+					if strings.HasSuffix(ts, "manifest.FileItem") || strings.HasSuffix(ts, "transfer.FileBegin") || strings.HasSuffix(ts, "transfer.FileResumeInfo") || strings.HasSuffix(ts, "transfer.ResumeRequest") {
+						hit = true
+					}
+				}
+			}
+			return true
+		})
+		return hit
+	}
+	for _, rel := range []string{"internal/transfer", "internal/app"} {
+		for _, f := range p.FuncsIn(rel) {
+			if f.Body == nil || strings.HasSuffix(p.Fset.Position(f.Pos()).Filename, "_test.go") {
+				continue
+			}
+			info := f.Info()
+			InspectNoLits(f.Body, func(m ast.Node) bool {
+				call, ok := m.(*ast.CallExpr)
+				if !ok {
+					return true
+				}
+				sink := false
+				if fn := Callee(info, call); fn != nil && fn.Pkg() != nil {
+					switch fn.Pkg().Path() {
+					case "path/filepath", "path":
+						sink = fn.Name() == "Join"
+					case "os":
+						sink = true
+					}
+				}
+				if g := p.CalleeInfo(info, call); g != nil && g.Name == "transfer.SidecarPath" {
+					sink = true
+				}
+				if !sink {
+					return true
+				}
+				for _, a := range call.Args {
+					for _, d := range resolveExprs(f, a, 2) {
+						if idField(info, d) {
+							out = append(out, p.Pos(call.Pos()))
+							return true
+						}
+					}
+				}
+				return true
+			})
+		}
+	}
+	return out
 }
